@@ -13,7 +13,9 @@ MANIFEST = dict(
     text="Lean 4 theorems over a model of the emitted status switch and decode tail (RestCall.call), for every status : Int, every body class, "
          "every result shape and every transport fault: model = property specification on the whole region status < 600 (C10_model_eq_spec), "
          "nil error iff 2xx and decodable (C10_nil_iff), error kinds and quoting (C10_kinds), response always returned (C10_resp_returned), "
-         "nil result on every error path, transport error passed on, empty body gives the zero value. The model is tied to restclient.tmpl by "
+         "nil result on every error path, transport error passed on, empty body gives the zero value; which result lists become which shape "
+         "(C10_result_shapes: the classification of cook.go:136-171 accepts exactly `(*http.Response, error)` and `(R, *http.Response, error)` with an "
+         "unnamed R = *T | []T | map[K]V, everything else is a Fatal). The model is tied to restclient.tmpl by "
          "generating real clients with the rebuilt `shoot rest`, compiling them and calling every method against a scripted RoundTripper for EVERY "
          "status 100..599 plus -1, 0, 99, 600, 999 x {empty, valid, malformed, wrong-typed, broken = transfer fails after the headers with nothing / a "
          "third / all but the last byte delivered} body x {pointer, slice, map, none} result x "
@@ -26,7 +28,11 @@ MANIFEST = dict(
          "option combinations (DefaultHeaders, Timeout(1|5|30) in the seconds convention, logging, Use) x methods with and without a context "
          "parameter against a transport that honours the request context: the status/body mapping is unchanged, a context cancelled before the call "
          "or a deadline expiring during it comes back as that error, the context the transport receives is the caller's (ctxwire), and it stays "
-         "live until the body has been read (answers of 5-70 KiB delivered 97 bytes per Read by a body that fails once the request context is done).",
+         "live until the body has been read (answers of 5-70 KiB delivered 97 bytes per Read by a body that fails once the request context is done); "
+         "WHO answers is varied as well: a middleware registered with shoot.Use that answers by itself with a hand-built *http.Response (bare: no "
+         "Request/Header/Status; without Request; complete) with logging on and off over the boundary status x body matrix — the base transport must "
+         "not be reached and a panicking method is an observation —, and a REAL *http.Transport as http.DefaultTransport (in-memory connections) "
+         "against a net/http server that answers identity / gzip on request / gzip always / chunked: the mapping is the same in every encoding.",
     note="Lean kernel + standard axioms; encoding/json behaviour on the five body classes (a body whose Read fails makes Decode return that error) and http.Client.Do are assumptions checked by the "
          "correspondence run; status >= 600 is outside the property (region Out, advisory). Known finding F_respWithError: a response that "
          "client.Do returns together with an error (refused redirect) is dropped.",
@@ -352,12 +358,16 @@ def run(ctx, obl):
     if getattr(ctx, "c10_skipped", None):
         ctx.notes.append("real connection-refused leg skipped for %d calls (loopback not available)" % len(ctx.c10_skipped))
     res.rule = ("exhaustive: one generated client with a pointer, a slice, a map and a no-result method, every status 100..599 plus -1, 0, 99, 600, 999 "
-                "x {empty, valid, malformed, wrongtype, broken (lost in transit)} body — through the plain client, a logging chain and five RestConf option combinations —, plus the faults {refused, cancelled, timeout (scripted), timeout (http.Client.Timeout)} "
+                "x {empty, valid, malformed, wrongtype, broken (lost in transit)} body — through the plain client, a logging chain, five RestConf option combinations, "
+                "chains in which a shoot.Use middleware answers with hand-built responses (5 forms x logging), and a real *http.Transport against a net/http server in four "
+                "response encodings —, plus the faults {refused, cancelled, timeout (scripted), timeout (http.Client.Timeout)} "
                 "and a real connection refused by a closed local port through the untouched default transport (%d calls); plus %d further generated interfaces (each verb x each result shape, then seeded random ones: 11 result types, "
                 "with/without context, path parameters) on the boundary statuses and random ones. Each call goes through the compiled generated "
                 "method against a scripted RoundTripper. non-trivial = distinct (shape, result type, status, body | fault)"
                 % (len([c for c in cases if c["pkg"] == "x0"]), len(pkgs) - 1))
-    res.assumptions = ["encoding/json: empty body => io.EOF, valid => decoded, malformed/wrong-typed => error (checked on every run for 11 result types)",
+    res.assumptions = ["a hand-built response carries a non-nil Body (http.NoBody for an empty answer), as the RoundTripper contract asks",
+                       "the real-transport leg runs over in-memory connections (net.Pipe): http.Transport, http.Server, gzip and chunking are the real ones, the network is not",
+                       "encoding/json: empty body => io.EOF, valid => decoded, malformed/wrong-typed => error (checked on every run for 11 result types)",
                        "http.Client.Do returns the RoundTripper's response object itself and wraps its error in *url.Error (identity observed)",
                        "a response body whose Read fails before a complete JSON value arrived makes json.Decoder.Decode return that Read error (observed)",
                        "3xx responses of the status matrix carry no Location header; with one, http.Client follows it under the client's own redirect policy "
